@@ -143,6 +143,10 @@ pub struct CCfg {
     pub empty_metadata: bool,
     /// use the alias builder methods (set_video_track / set_audio_track / set_create_time / set_language)
     pub alias_builder: bool,
+    /// configure things twice, a decoy value first and the real one last (the last configuration must win):
+    /// bit 0: every Metadata setter; bit 1: with_metadata(decoy) before with_metadata(real); bit 2: language / creation time
+    /// re-set through the builder after with_metadata carried decoys; bit 3: video(), audio(), with_fast_start() twice
+    pub reconfig: u8,
 }
 
 impl CCfg {
@@ -162,6 +166,7 @@ impl CCfg {
             lang: None,
             empty_metadata: false,
             alias_builder: false,
+            reconfig: 0,
         }
     }
     pub fn has_audio(&self) -> bool {
@@ -389,6 +394,19 @@ pub struct Run {
 
 pub fn build_muxer<W: Write>(w: W, cfg: &CCfg) -> Result<Muxer<W>, MuxerError> {
     let mut b = MuxerBuilder::new(w);
+    let rc = cfg.reconfig;
+    let decoy_lang = if cfg.lang.as_deref() == Some("zxx") { "qaa" } else { "zxx" };
+    let decoy_time = |t: u64| if t >= 86_400 { t - 86_399 } else { t + 31_622_400 };
+    if rc & 8 != 0 && cfg.video {
+        // decoys first: another codec, other dimensions, other audio parameters, the opposite layout
+        b = b.video(vcodec((cfg.codec + 1) % 4), cfg.width + 16, cfg.height + 8, 12.5);
+        if cfg.audio != 0 {
+            b = b.audio(acodec(if cfg.audio == 7 { 1 } else { 7 }), 48000, 1);
+        }
+        if let Some(fs) = cfg.fast_start {
+            b = b.with_fast_start(!fs);
+        }
+    }
     if cfg.video {
         b = if cfg.alias_builder {
             b.set_video_track(vcodec(cfg.codec), cfg.width, cfg.height, cfg.fps)
@@ -418,17 +436,42 @@ pub fn build_muxer<W: Write>(w: W, cfg: &CCfg) -> Result<Muxer<W>, MuxerError> {
             b = b.with_metadata(Metadata::new());
         }
     } else if any_meta || cfg.empty_metadata {
+        if rc & 2 != 0 {
+            b = b.with_metadata(Metadata::new().with_title("decoy title (e-acute: \u{e9})").with_creation_time(1).with_language(decoy_lang));
+        }
+        let late = rc & 4 != 0; // language / creation time arrive through the builder after with_metadata carried decoys
         let mut m = Metadata::new();
         if let Some(t) = &cfg.title {
+            if rc & 1 != 0 {
+                m = m.with_title(format!("{} (decoy)", t));
+            }
             m = m.with_title(t.clone());
         }
         if let Some(t) = cfg.ctime {
-            m = m.with_creation_time(t);
+            if rc & 1 != 0 || late {
+                m = m.with_creation_time(decoy_time(t));
+            }
+            if !late {
+                m = m.with_creation_time(t);
+            }
         }
         if let Some(l) = &cfg.lang {
-            m = m.with_language(l.clone());
+            if rc & 1 != 0 || late {
+                m = m.with_language(decoy_lang);
+            }
+            if !late {
+                m = m.with_language(l.clone());
+            }
         }
         b = b.with_metadata(m);
+        if late {
+            if let Some(t) = cfg.ctime {
+                b = b.set_create_time(decoy_time(t)).set_create_time(t);
+            }
+            if let Some(l) = &cfg.lang {
+                b = b.set_language(decoy_lang).set_language(l.clone());
+            }
+        }
     }
     b.build()
 }
@@ -590,6 +633,37 @@ pub fn run_to_file(cfg: &CCfg, ops: &[COp]) -> Run {
 
 
 /// Plain executor for arbitrary sink types (no call tagging): returns the per-call results only.
+/// Like `run_history_on`, with real pauses of `dur` right before the ops whose indices are listed in `at`.
+pub fn run_paused<W: Write + CallTag>(w: W, cfg: &CCfg, ops: &[COp], at: Vec<usize>, dur: std::time::Duration) -> Run {
+    struct Paused<W> {
+        inner: W,
+        at: Vec<usize>,
+        dur: std::time::Duration,
+    }
+    impl<W: Write> Write for Paused<W> {
+        fn write(&mut self, b: &[u8]) -> std::io::Result<usize> {
+            self.inner.write(b)
+        }
+        fn flush(&mut self) -> std::io::Result<()> {
+            self.inner.flush()
+        }
+    }
+    impl<W: CallTag> CallTag for Paused<W> {
+        fn tagger(&self) -> Box<dyn Fn(usize)> {
+            let inner = self.inner.tagger();
+            let at = self.at.clone();
+            let dur = self.dur;
+            Box::new(move |i| {
+                if at.contains(&i) {
+                    std::thread::sleep(dur);
+                }
+                inner(i)
+            })
+        }
+    }
+    run_history_on(cfg, ops, Paused { inner: w, at, dur }, SinkState::default)
+}
+
 pub fn run_plain<W: Write>(w: W, cfg: &CCfg, ops: &[COp], between: &dyn Fn(usize)) -> (CallResult, Vec<CallResult>) {
     struct NoTag<W>(W);
     impl<W: Write> Write for NoTag<W> {
